@@ -433,8 +433,51 @@ class _resolve_called_lambdas(ast.NodeTransformer):
         self._arg_map_list.pop()
         return ast.Lambda(args=new_args, body=new_body)
 
+    def _visit_comprehension(self, node: Any) -> Any:
+        """The targets of a comprehension inside the body being resolved are local names: they hide
+        arguments of the same name and are renamed if an argument expression uses their name. The
+        iterable of the first `for` is evaluated outside the comprehension's own scope."""
+        if len(self._arg_map_list) == 0:
+            return self.generic_visit(node)
+
+        used = {
+            n.id
+            for arg_map in self._arg_map_list
+            for v in arg_map.values()
+            for n in ast.walk(v)
+            if isinstance(n, ast.Name)
+        }
+        first_iter = self.visit(node.generators[0].iter)
+        mapping = {}
+        for g in node.generators:
+            for t in ast.walk(g.target):
+                if isinstance(t, ast.Name):
+                    new_name = t.id
+                    while new_name in used:
+                        self._rename_counter += 1
+                        new_name = f"{t.id}_{self._rename_counter}"
+                    mapping[t.id] = ast.Name(id=new_name, ctx=ast.Load())
+
+        self._arg_map_list.append(mapping)
+        node.generators[0].iter = ast.Constant(value=None)  # placeholder: already resolved above
+        new_node = self.generic_visit(node)
+        self._arg_map_list.pop()
+        new_node.generators[0].iter = first_iter
+        for g in new_node.generators:
+            for t in ast.walk(g.target):
+                if isinstance(t, ast.Name) and t.id in mapping:
+                    t.id = mapping[t.id].id
+        return new_node
+
+    visit_ListComp = _visit_comprehension
+    visit_GeneratorExp = _visit_comprehension
+    visit_SetComp = _visit_comprehension
+    visit_DictComp = _visit_comprehension
+
     def visit_Name(self, node: ast.Name) -> Any:
         "Look through the arg map to see if it is a argument"
+        if not isinstance(node.ctx, ast.Load):
+            return node
         for arg_map in reversed(self._arg_map_list):
             if node.id in arg_map:
                 return arg_map[node.id]
